@@ -26,7 +26,7 @@ pub fn all() -> Vec<PropDef> {
             level: "exploration",
             runs: crate::gen_sm2sig::runs_c03,
             run: crate::gen_sm2sig::run_c03,
-            rule: "seeded runs of 1-4 interleaved SM2 signature sessions (key class x ID class x message class x signer in {library, reference} x key delivery); nonce through the RNG seam; a case is one (op, all input bytes, RNG script) on which at least one C03 oracle was evaluated; distinct = distinct hashes of those inputs",
+            rule: "seeded runs of 1-4 interleaved SM2 signature sessions (key class incl. limb-boundary keys x ID class incl. empty, 8191-byte and non-ASCII IDs x message class x signer in {library, reference} x key delivery; a quarter of the sessions sign again with the same key); nonce through the RNG seam; Annex A example and 24 OpenSSL signatures in run 0; a case is one (op, all input bytes, RNG script) on which at least one C03 oracle was evaluated; distinct = distinct hashes of those inputs",
             assumptions: &[REF_ASSUME, SAMPLE_ASSUME],
             exhaustive_per_sample: false,
         },
@@ -35,7 +35,7 @@ pub fn all() -> Vec<PropDef> {
             level: "fault_enumeration",
             runs: crate::gen_sm2sig::runs_c04,
             run: crate::gen_sm2sig::run_c04,
-            rule: "per seeded sample (pk, id, msg, sig) every fault of the menu is applied on a fork of the world and delivered to the library's verify: all 512 bit flips of r||s, every length 0..=130, component substitutions (0,1,n-1,n,n+1,2^256-1,n-r,n-s,+n,swap), message/ID/public-key faults, misdelivery, random pairs; a case is one delivered (pk, id, msg, sig) tuple on which a C04 oracle was evaluated",
+            rule: "per seeded sample (pk, id, msg, sig) every fault of the menu is applied on a fork of the world and delivered to the library's verify: all 512 bit flips of r||s, every length 0..=130, component substitutions (0,1,n-1,n,n+1,2^256-1,n-r,n-s,+n,swap), two-byte cancelling faults, message/ID/public-key faults, misdelivery, random pairs, and signatures/keys crafted by an adversary (k = 0 and equal-points pairs by the key owner; an order-2 invalid-curve key with a forged signature); every faulted delivery is preceded and followed by the genuine one in the same world; a case is one delivered (pk, id, msg, sig) tuple on which a C04 oracle was evaluated",
             assumptions: &[REF_ASSUME, "the reference verifier, not 'was it modified', decides validity of a delivered tuple", SAMPLE_ASSUME],
             exhaustive_per_sample: true,
         },
@@ -44,7 +44,7 @@ pub fn all() -> Vec<PropDef> {
             level: "exploration",
             runs: crate::gen_sm2enc::runs_c05,
             run: crate::gen_sm2enc::run_c05,
-            rule: "seeded runs of 1-3 interleaved SM2 encryption sessions over 2 orders x 2 C1 forms x encryptor in {library, reference}; run i covers message length (i mod 300)+1 so every length 1..=300 occurs, plus lengths up to 5000 (quick) / 65536 (thorough); nonce through the RNG seam (scripted rare nonce whose KDF output is zero; Annex A example); a case is one (op, input bytes, RNG script) on which a C05 oracle was evaluated",
+            rule: "seeded runs of 1-3 interleaved SM2 encryption sessions over 2 orders x 2 C1 forms x encryptor in {library, reference}; run i covers message length (i mod 300)+1 so every length 1..=300 occurs, plus lengths up to 5000 (quick) / 65536 (thorough); nonce through the RNG seam (scripted rare nonce whose KDF output is zero; Annex A example); 12 OpenSSL ciphertexts in 4 framings; the KDF at klen on both sides of every counter-byte boundary up to 65537 and an 8200-byte message; 30 runs x 50 reference-made ciphertexts delivered to the library; a quarter of the sessions reuse the key pair in another configuration; a case is one (op, input bytes, RNG script) on which a C05 oracle was evaluated",
             assumptions: &[REF_ASSUME, SAMPLE_ASSUME],
             exhaustive_per_sample: false,
         },
@@ -53,7 +53,7 @@ pub fn all() -> Vec<PropDef> {
             level: "fault_enumeration",
             runs: crate::gen_sm2enc::runs_c06,
             run: crate::gen_sm2enc::run_c06,
-            rule: "per seeded sample ciphertext (4 configurations cycled) every fault of the menu on a fork of the world, then the library's decrypt: every single-bit flip, every truncation length, extensions, misdelivered ciphertext/key, wrong framing, C1 := 2*C1 / -C1 / every prefix byte / off-curve / zero / p / compressed non-residue, crafted victim-consistent invalid-curve ciphertexts and coordinate >= p ciphertexts; a case is one delivered (d, ciphertext, config) on which a C06 oracle was evaluated",
+            rule: "per seeded sample ciphertext (4 configurations cycled) every fault of the menu on a fork of the world, then the library's decrypt: every single-bit flip, every truncation length, extensions, misdelivered ciphertext/key, wrong framing, two-byte cancelling faults in C3/C2, C1 := 2*C1 / -C1 / every prefix byte / off-curve / zero / p / compressed non-residue, crafted victim-consistent ciphertexts (invalid-curve point, zero point, coordinate >= p, non-residue x with the unchecked root); every faulted delivery is preceded and followed by the genuine one in the same world; a case is one delivered (d, ciphertext, config) on which a C06 oracle was evaluated",
             assumptions: &[REF_ASSUME, "the strict reference decryptor, not 'was it modified', decides what may be accepted", "the crafting adversary knows d (a real attacker learns it piecewise through exactly these queries)", SAMPLE_ASSUME],
             exhaustive_per_sample: true,
         },
